@@ -5,7 +5,8 @@
    gives the verdict OPPOSITE to what the built-in interpreter would say (or sets a marker attribute), so which one
    decided an operation is visible in its outcome as well as in the recorded set of callbacks that ran.        *)
 EXTENDS ModelLib
-CONSTANTS SwapFirst,      \* SetInterpreter(another instance) right after the tables are created: registrations and activation follow
+CONSTANTS RegIds,         \* which registrations of the menu this configuration uses
+          SwapFirst,      \* SetInterpreter(another instance) right after the tables are created: registrations and activation follow
           PreActivate      \* activate the native interpreter BEFORE the tables exist (the flag must reach tables created later)
 TA == "tbl1"
 TB == "tbl2"
@@ -14,6 +15,8 @@ TxAB  == <<97,98,32,61,32,58,118>>                  \* "ab = :v"
 TxBA  == <<98,97,32,61,32,58,118>>                  \* "ba = :v"      (anagram of the first)
 TxAB2 == <<97,98,32,32,61,32,32,58,118>>            \* "ab  =  :v"    (repeated blanks)
 TxAB3 == <<32,97,98,32,61,32,58,118,32>>            \* " ab = :v "    (surrounding blanks)
+TxAB4 == <<97,98,10,61,9,58,118,13,10>>             \* "ab\n=\t:v\r\n"  (line breaks and tabs are blanks too)
+UxAB3 == <<83,69,84,10,97,98,9,61,32,58,118>>       \* "SET\nab\t= :v"
 TxOther == <<97,98,32,60,62,32,58,118>>             \* "ab <> :v"
 KxH   == <<104,32,61,32,58,118>>                   \* "h = :v"       (as key condition and as filter)
 UxAB  == <<83,69,84,32,97,98,32,61,32,58,118>>      \* "SET ab = :v"
@@ -26,9 +29,11 @@ VX == One(":v", S1(120))
 Item == [h |-> S1(97), ab |-> S1(120), ba |-> S1(121)]
 Key == [h |-> S1(97)]
 Matcher(t, kind, text, id, verdict) == [op |-> "AddMatcher", c |-> "c1", t |-> t, mkind |-> kind, text |-> text, id |-> id, verdict |-> verdict]
-Updater(t, text, id) == [op |-> "AddUpdater", c |-> "c1", t |-> t, text |-> text, id |-> id, attr |-> "mark", val |-> Str(<<117>>)]
-Regs == { Matcher(TA, "conditional", TxAB, "m1", FALSE), Matcher(TA, "conditional", TxBA, "m2", TRUE), Matcher(TB, "conditional", TxAB, "m3", FALSE),
+\* the updater sets "mark" and deletes "ba" (an attribute the item has): what it does to the item IS the update
+Updater(t, text, id) == [op |-> "AddUpdater", c |-> "c1", t |-> t, text |-> text, id |-> id, attr |-> "mark", val |-> Str(<<117>>), rem |-> "ba"]
+AllRegs == { Matcher(TA, "conditional", TxAB, "m1", FALSE), Matcher(TA, "conditional", TxBA, "m2", TRUE), Matcher(TB, "conditional", TxAB, "m3", FALSE),
           Matcher(TA, "filter", TxAB, "m4", FALSE), Updater(TA, UxAB, "u1"), Matcher(TA, "key", KxH, "m5", FALSE) }
+Regs == { g \in AllRegs : g.id \in RegIds }
 PutT(t, ast, text) == PutC("c1", t, Item, Cond(ast), <<>>, VX, FALSE) @@ [condtext |-> text]
 DelT(t, ast, text) == DelC("c1", t, Key, Cond(ast), <<>>, VX, FALSE, FALSE) @@ [condtext |-> text]
 UpdT(t, u, text) == UpdC("c1", t, Key, u, NoCond, <<>>, VX, FALSE) @@ [updtext |-> text]
@@ -38,10 +43,10 @@ VA == One(":v", S1(97))
 QueryT(t) == QueryOp("c1", t, NoIndex, CH, NoFilter, <<>>, VA, TRUE) @@ [kctext |-> KxH]
 ScanH(t) == ScanOp("c1", t, NoIndex, Cond(CH), <<>>, VA) @@ [filtertext |-> KxH]
 Requests ==
-     { PutT(t, x[1], x[2]) : t \in {TA, TB}, x \in { <<CAB, TxAB>>, <<CBA, TxBA>>, <<CAB, TxAB2>>, <<CAB, TxAB3>>, <<COther, TxOther>> } }
+     { PutT(t, x[1], x[2]) : t \in {TA, TB}, x \in { <<CAB, TxAB>>, <<CBA, TxBA>>, <<CAB, TxAB2>>, <<CAB, TxAB3>>, <<CAB, TxAB4>>, <<COther, TxOther>> } }
   \cup { DelT(TA, CAB, TxAB), DelT(TA, CBA, TxBA) }
-  \cup { UpdT(t, SetU("ab", Val(":v")), x) : t \in {TA, TB}, x \in {UxAB, UxAB2} } \cup { UpdT(TA, SetU("ba", Val(":v")), UxBA) }
-  \cup { ScanT(TA, CAB, TxAB), ScanT(TA, CBA, TxBA), ScanT(TB, CAB, TxAB), ScanT(TA, CAB, TxAB2) }
+  \cup { UpdT(t, SetU("ab", Val(":v")), x) : t \in {TA, TB}, x \in {UxAB, UxAB2, UxAB3} } \cup { UpdT(TA, SetU("ba", Val(":v")), UxBA) }
+  \cup { ScanT(TA, CAB, TxAB), ScanT(TA, CBA, TxBA), ScanT(TB, CAB, TxAB), ScanT(TA, CAB, TxAB2), ScanT(TA, CAB, TxAB4) }
   \cup { QueryT(TA), QueryT(TB), ScanH(TA) }
 SetupDef == (IF PreActivate THEN << [op |-> "NativeActivate", c |-> "c1"] >> ELSE <<>>)
             \o << AddTable("c1", TA, "h", ""), AddTable("c1", TB, "h", ""), Put(TA, Item), Put(TB, Item) >>
